@@ -13,6 +13,7 @@ import (
 	"errors"
 	"fmt"
 	"io"
+	"reflect"
 	"strings"
 	"sync"
 
@@ -105,6 +106,8 @@ func (o *evOp) proto() string {
 		return "unmarshal:" + hx(o.Bytes)
 	case "know":
 		return fmt.Sprintf("know:%d:%s", o.Key, hx(o.Bytes))
+	case "mutate":
+		return "mutate:" + strings.ReplaceAll(o.D.Line(), " ", "&")
 	default:
 		return fmt.Sprintf("verify:%d", o.Key)
 	}
@@ -140,6 +143,15 @@ func (o *evOp) exec(ev *psa.Evidence) evStep {
 		switch o.Kind {
 		case "setclaims":
 			err = ev.SetClaims(o.D.Build())
+		case "mutate":
+			// the application changes the attached claims object behind the Evidence's back: in place
+			// when the types allow (the Evidence keeps the very same object), else by assignment
+			n := o.D.Build()
+			if ev.Claims != nil && reflect.TypeOf(ev.Claims) == reflect.TypeOf(n) {
+				reflect.ValueOf(ev.Claims).Elem().Set(reflect.ValueOf(n).Elem())
+			} else {
+				ev.Claims = n
+			}
 		case "sign":
 			st.token, err = ev.Sign(o.signer())
 		case "vsign":
